@@ -125,7 +125,7 @@ class Plumb(Harness):
 
 class Join(Harness):
     name = "c13_tc_join"
-    must_reach = ("join", "leave", "denied", "leave-and-denied", "mfg-prefix")
+    must_reach = ("join", "leave", "denied", "leave-and-denied", "mfg-prefix", "join-during-override")
     functions = ("ControllerApplication._handle_tc_join_handler", "ControllerApplication.ezsp_callback_handler")
 
     def run(self, ctx):
@@ -159,6 +159,18 @@ class Join(Harness):
                 ctx.check(len(rec.joins) == 1 and not rec.leaves, "allowed join produced %d join(s) / %d leave(s)" % (len(rec.joins), len(rec.leaves)), "join-count")
                 ctx.check(sand(rec.joins[0][0] == nwk, rec.joins[0][2] == parent), "join reported with different address / parent", "join-addresses")
                 ctx.check(rec.joins[0][1] == ieee, "join reported with a different IEEE", "join-ieee")
+            # history: a further allowed join right afterwards (e.g. while the manufacturer-code override of the first is still running)
+            n_j = len(rec.joins)
+            await asyncio.sleep(0.01)
+            ieee2 = t.EUI64.convert(IEEES[ctx.choice("ieee2", 2)])
+            nwk2 = ctx.int("nwk2", 0, 0xFFFF)
+            parent2 = ctx.int("parent2", 0, 0xFFFF)
+            app.ezsp_callback_handler("trustCenterJoinHandler", [nwk2, ieee2, 0x00, 0x00, parent2])
+            ctx.check(len(rec.joins) == n_j + 1, "a second allowed join (after a %s) produced %d join(s)" % ("join" if n_j else "non-join", len(rec.joins) - n_j), "second-join-count")
+            ctx.check(sand(rec.joins[-1][0] == nwk2, rec.joins[-1][2] == parent2), "second join reported with different address / parent", "second-join-addresses")
+            ctx.check(rec.joins[-1][1] == ieee2, "second join reported with a different IEEE", "second-join-ieee")
+            if n_j and str(ieee).startswith("04:cf") and str(ieee2).startswith("04:cf"):
+                ctx.label("join-during-override")
             if app._mfg_id_task is not None:
                 app._mfg_id_task.cancel()
             ctx.observe(len(rec.joins), len(rec.leaves))
